@@ -502,7 +502,12 @@ impl<'a, R: Resolve> Walker<'a, R> {
         if let Some(pl) = cat.page_labels.as_ref() {
             self.call("catalog.page_labels.walk", || {
                 let mut items = Vec::new();
-                pl.walk(r, &mut |i, l| items.push((i, l.prefix.as_ref().map(|p| p.as_bytes().to_vec()), l.start)))?;
+                pl.walk(r, &mut |i, l| {
+                    // (bounded: a hostile tree may call back without end, which must show as time, not as harness memory)
+                    if items.len() < 100_000 {
+                        items.push((i, l.prefix.as_ref().map(|p| p.as_bytes().to_vec()), l.start))
+                    }
+                })?;
                 Ok((format!("{}:{}", items.len(), hs(&items)), ()))
             });
         }
@@ -512,7 +517,11 @@ impl<'a, R: Resolve> Walker<'a, R> {
                     if let Some(t) = names.$field.as_ref() {
                         self.call(format!("catalog.names.{}.walk", $name), || {
                             let mut items: Vec<(Vec<u8>, String)> = Vec::new();
-                            t.walk(r, &mut |k: &PdfString, v| items.push((k.as_bytes().to_vec(), $val(v))))?;
+                            t.walk(r, &mut |k: &PdfString, v| {
+                                if items.len() < 100_000 {
+                                    items.push((k.as_bytes().to_vec(), $val(v)))
+                                }
+                            })?;
                             Ok((format!("{}:{}", items.len(), hs(&items)), ()))
                         });
                     }
@@ -529,7 +538,11 @@ impl<'a, R: Resolve> Walker<'a, R> {
             if let Some(t) = names.embedded_files.as_ref() {
                 let files = self.call("catalog.names.embedded_files.walk", || {
                     let mut items: Vec<(Vec<u8>, Option<Ref<Stream<EmbeddedFile>>>)> = Vec::new();
-                    t.walk(r, &mut |k: &PdfString, v: &FileSpec| items.push((k.as_bytes().to_vec(), v.ef.as_ref().and_then(|e| e.f.or(e.uf)))))?;
+                    t.walk(r, &mut |k: &PdfString, v: &FileSpec| {
+                        if items.len() < 100_000 {
+                            items.push((k.as_bytes().to_vec(), v.ef.as_ref().and_then(|e| e.f.or(e.uf))))
+                        }
+                    })?;
                     Ok((format!("{}", items.len()), items))
                 });
                 for (k, (name, sref)) in files.unwrap_or_default().into_iter().enumerate().take(20) {
